@@ -1,7 +1,7 @@
 (* C19 — core iterator, string, option helpers match their plain definitions.
    (The defer clause is modelled in Core/Defer.v; see DESIGN §7 C19.) *)
 From Coq Require Import List ZArith NArith.
-From RV Require Import Base.Str Core.Iter Core.IterFacts.
+From RV Require Import Base.Str Core.Iter Core.IterFacts Defer.
 Local Open Scope Z_scope.
 
 Theorem C19_drop_is_spec : forall (A : Type) n (l : list A), in_isize n -> drop n l = drop_spec n l.
@@ -84,3 +84,23 @@ Theorem C19_take_while_p_longest : forall (A : Type) (p : A -> bool) l,
   l = t ++ r /\ forallb p t = true /\ match r with x :: _ => p x = false | nil => True end.
 Proof. exact @take_while_p_longest. Qed.
 Print Assumptions C19_take_while_p_longest.
+
+(* defer: over Rust's scope semantics for locals (Core/Defer.v), every registered closure runs exactly once — as a
+   multiset the log is the ordinary actions plus the registered defers — however the scopes are left ... *)
+Theorem C19_defer_exactly_once : forall ss x,
+  (count_occ Nat.eq_dec (fst (Defer.run ss)) x =
+   count_occ Nat.eq_dec (fst (Defer.registered ss)) x + count_occ Nat.eq_dec (fst (Defer.logged ss)) x)%nat.
+Proof. exact defer_exactly_once. Qed.
+Print Assumptions C19_defer_exactly_once.
+
+(* ... in reverse order of registration after the scope's own actions (normal end, early return or panic alike) *)
+Theorem C19_defer_lifo : forall ss, Defer.flat ss ->
+  fst (Defer.run ss) = (fst (Defer.logged ss) ++ rev (fst (Defer.registered ss)))%list.
+Proof. exact defer_lifo. Qed.
+Print Assumptions C19_defer_lifo.
+
+(* ... an enclosing defer still runs when an inner scope is left early *)
+Theorem C19_defer_runs_on_early_exit : forall id body l e, Defer.run body = (l, e) -> e <> Defer.Normal ->
+  Defer.run (Defer.SCons (Defer.SDefer id) (Defer.SCons (Defer.SScope body) Defer.SNil)) = ((l ++ (id :: nil))%list, e).
+Proof. exact defer_runs_on_early_exit. Qed.
+Print Assumptions C19_defer_runs_on_early_exit.
